@@ -861,7 +861,12 @@ func (e *Env) trCall(x *ECall) TV {
 				}
 			}
 		}
-		return TV{T: e.vc.sc.Const("fn."+name, SRef)}
+		ft := e.vc.sc.Const("fn."+name, SRef)
+		if key := "fnnonnil:" + ft.S; !e.vc.namedOnce[key] {
+			e.vc.namedOnce[key] = true
+			e.vc.implFacts = append(e.vc.implFacts, Not(Eq(ft, tNull)))
+		}
+		return TV{T: ft}
 	case "bv":
 		v := e.tr(x.Args[0])
 		if v.Num == nil {
